@@ -1665,6 +1665,12 @@ def run(check):
         'Attributes._subclasses lists direct subclasses in creation order',
         'prefix allocation (Interface.get_namespace_prefix) is not modelled: the prefix table the interface ended up with '
         'is an input of every case; the theorems hold for any table whose prefixes are non-empty and colon-free',
+        'the namespace of an Array(T) class is global state assigned when resolve_namespace reaches the class that '
+        'declares the member (message classes, what add_class visits, their direct subclasses and what those refer to); '
+        'members of classes no application reached (e.g. below a subclass placed in another namespace) keep None and their '
+        'items are written without a namespace. That reachability is not modelled: the list of such members is read from '
+        'the implementation\'s classes and is an input of every case (p_unres); the theorems hold for any list, and '
+        'instances of such classes are outside the property\'s quantifier',
         'the leaf codecs of Integer / Unicode / Boolean: C08 via C01/Leaf.v for XML; for dict documents the identity on '
         '64-bit integers, text and booleans (C16/Leaf.v), other leaves are C02\'s subject',
     ]
